@@ -343,7 +343,8 @@ def gen_session(lib, rng, tmp, k, fixed=None):
     recs, ctx = [], []
     d = rng.choice([2, 3])
     nfr = rng.randint(1, 3)
-    n0 = rng.choice([1, 2, 3]) if rng.random() < 0.12 else rng.randint(4, 40 if d == 2 else 28)
+    # (one to three particles per box: every cell meets the same neighbours - or itself - through several periodic images)
+    n0 = rng.choice([1, 2, 3]) if rng.random() < 0.25 else rng.randint(4, 40 if d == 2 else 28)
     same = rng.random() < 0.6
     okind = rng.choice([0, 1, 1, 2, 3])
     frames = [gen_config(rng, d, n0 if same else rng.randint(2, 30), okind if rng.random() < 0.8 else rng.randint(0, 3))
